@@ -1,6 +1,7 @@
 import PdshVerif.Dsh.FanG
 import PdshVerif.Dsh.FanRelay
 import PdshVerif.Dsh.FanX
+import PdshVerif.Dsh.FanPoll
 import PdshVerif.Base.Hex
 import Driver.Util
 
@@ -19,7 +20,10 @@ import Driver.Util
     fin W<i> <0|1>                   that stream is over (EOF or error seen, descriptor closed) -> ok | reject ..
     cfail W<i>                       rcmd_connect of target i failed: no streams            -> ok | reject ..
     (in relay mode every `ev` goes through `FanRelay.step`: a worker may leave its read loop only when its polled
-    streams are over, and reads happen only inside the loop)
+    streams are over, and reads happen only inside the loop; AND through `FanPoll.step`, the composition with the
+    loop as code (Props/C03 `returns_after_output_delivered_poll`): a read of n > 0 bytes is `arrive` + an `xpoll`
+    return reporting that descriptor, a close is `hup` + such a return, and the worker may leave the loop only when
+    the loop condition of the MODEL of `_rsh_thread`'s loop, C05's `pollStep` run on those bytes, is false)
     ENVIRONMENT (`Dsh/FanX.lean`, the LTS of Props/C03 `X` / Props/C04 `X`; outside relay mode EVERY `ev` goes through
     `FanX.step`, which wraps `FanG.step`):
     initx <if|while> <setting> <N> <k> <soft> <hard>   start a new trace: `-k` or not, RLIMIT_NOFILE at the call of
@@ -48,6 +52,7 @@ structure Acc where
   evs : List (PdshVerif.Relay.Key × PdshVerif.Relay.LEv) := []
   sopt : Bool := false
   nofd : List Nat := []
+  pevs : List (Nat × PdshVerif.Relay.PEv) := []
   ph : PdshVerif.Dsh.FanX.Phase := .running
   kopt : Bool := false
   termSent : Bool := false
@@ -103,12 +108,36 @@ def parseLabels : List String → List Label
       | _ => []
   | _ => []
 
+open PdshVerif.Dsh PdshVerif.Relay in
+/-- parameters of the loop model in relay mode: what is written does not matter to the loop condition -/
+def pollParams (sopt : Bool) : Option FanPoll.Params :=
+  (mkFifoBuf 1).map fun b0 => { cfg := ⟨true, false, false, false, false⟩, names := fun _ => [], b0 := b0, sopt := sopt }
+
+open PdshVerif.Dsh in
+def Acc.pst (a : Acc) (s : St) : FanPoll.St := { fan := s, evs := a.pevs, nofd := a.nofd }
+
+open PdshVerif.Dsh PdshVerif.Relay in
+/-- a relay line as events of the worker's loop: the data (or the hang-up) arrives, `xpoll` reports that descriptor,
+    its handler runs -/
+def pollEvents : FanRelay.Label → List FanPoll.Label
+  | .ev k (.feed b) => [.pev k.1 (.arrive k.2 b), .pev k.1 (if k.2 then .poll none (some none) else .poll (some none) none)]
+  | .ev k .finish => [.pev k.1 (.hup k.2), .pev k.1 (if k.2 then .poll none (some none) else .poll (some none) none)]
+  | .cfail i => [.cfail i]
+  | .fan l => [.fan l]
+
+open PdshVerif.Dsh in
+def runPoll (P : FanPoll.Params) (p : FanPoll.St) (ls : List FanPoll.Label) : Option FanPoll.St := FanPoll.run P p ls
+
 /-- perform the observed call: the first candidate label that is enabled -/
 def stepObserved (s : St) (ls : List Label) : Option St := ls.findSome? (step s)
 
 open PdshVerif.Dsh in
 /-- the same through the environment LTS -/
 def stepObservedX (x : FanX.St) (ls : List Label) : Option FanX.St := ls.findSome? fun l => FanX.step x (.g l)
+
+/-- the candidate label that was taken (the first enabled one in the protocol LTS) -/
+def pickTaken (s : St) (ls : List Label) : Label :=
+  (ls.find? fun l => (step s l).isSome).getD (ls.headD (.d .lock))
 
 open PdshVerif.Dsh in
 /-- the same in relay mode -/
@@ -210,7 +239,13 @@ def stepLine (a : Acc) (line : String) : Acc × String :=
     | some s, some l =>
       if !a.relay then (a, "bad-line") else
       match PdshVerif.Dsh.FanRelay.step (a.rst s) l with
-      | some r => (a.ofRst r, "ok")
+      | some r =>
+        match pollParams a.sopt with
+        | none => (a.ofRst r, "ok")
+        | some P =>
+          match runPoll P (a.pst s) (pollEvents l) with
+          | some p => ({ a.ofRst r with pevs := p.evs }, "ok")
+          | none => ({ a with dead := true }, s!"reject relay event not enabled in the composition with the loop model (FanPoll): {line} ({showSt s})")
       | none => ({ a with dead := true }, s!"reject relay event not enabled in the composed model: {line} ({showSt s})")
     | _, _ => (a, "bad-line")
   | "st" :: rest =>
@@ -228,7 +263,13 @@ def stepLine (a : Acc) (line : String) : Acc × String :=
     | some s, ls =>
       if a.relay then
         match stepObservedR (a.rst s) ls with
-        | some r => (a.ofRst r, "ok")
+        | some r =>
+          -- the same step in the composition with the loop as code: the guard of destroyBegin is pollStep's loop condition
+          let okPoll := match pollParams a.sopt with
+            | none => true
+            | some P => (PdshVerif.Dsh.FanPoll.step P (a.pst s) (.fan (pickTaken s ls))).isSome
+          if okPoll then (a.ofRst r, "ok")
+          else ({ a with dead := true }, s!"reject the worker leaves its read loop but the loop condition of the loop model (pollStep, FanPoll) still holds: {" ".intercalate rest} ({showSt s})")
         | none =>
           let why := if (stepObserved s ls).isSome then " (enabled in the protocol LTS, refused by the composition: the worker leaves its read loop before its polled streams are over)" else ""
           ({ a with dead := true }, s!"reject not enabled in the model{why}: {" ".intercalate rest} ({showSt s})")
